@@ -1,6 +1,7 @@
 import PprofVerif.Base.Tok
 import PprofVerif.Model.Stacks
 import PprofVerif.Spec.Stacks
+import PprofVerif.Spec.StacksAggregate
 /- Driver operations for C17 (flame-graph stack set).
    `stacks.model <idx> <profile>`  → `ok <stackset>` | `err` | `panic`, the raw (index based) dump of
         the model's StackSet; the harness canonicalises it with the same function it uses for the
@@ -24,6 +25,18 @@ def wStackSet (s : StackSet) : Wr :=
 def wFrame (f : Frame) : Wr :=
   Wr.str f.name ++ Wr.str f.file ++ Wr.nat f.fnID ++ Wr.int f.line ++ Wr.int f.column ++ Wr.bool f.inlined
 
+/-- the part of a profile `Stacks()` reads (harness: `c17StackView`). -/
+def wStackView (p : Profile) : Wr :=
+  Wr.list (fun (f : Function) => Wr.nat f.id ++ Wr.str f.name ++ Wr.str f.filename) p.functions ++
+  Wr.list (fun (l : Location) => Wr.nat l.id ++
+    Wr.list (fun (ln : Line) => Wr.nat ln.functionID ++ Wr.int ln.line ++ Wr.int ln.column) l.lines) p.locations ++
+  Wr.list (fun (s : Sample) => Wr.list Wr.nat s.locationIDs ++ Wr.list Wr.int s.values) p.samples
+
+def rdFlagsProfile : Rd (Spec.AggFlags × Profile) := do
+  let a ← Rd.bool; let b ← Rd.bool; let c ← Rd.bool; let d ← Rd.bool; let e ← Rd.bool; let g ← Rd.bool
+  let p ← Rd.profile
+  pure ({ none := a, inlines := b, function := c, filename := d, linenumber := e, columns := g }, p)
+
 def rdIdxProfile : Rd (Nat × Profile) := do
   let i ← Rd.nat
   let p ← Rd.profile
@@ -45,6 +58,10 @@ def ops : List (String × (List String → String)) := [
       match Spec.resolve p i with
       | some rs => "ok " ++ Wr.render (Wr.list (fun (x : Int × List Frame) => Wr.int x.1 ++ Wr.list wFrame x.2) rs)
       | none => "none"),
+  ("stacks.aggregate", fun ts =>
+    match Rd.run rdFlagsProfile ts with
+    | none => "bad-op"
+    | some (f, p) => "ok " ++ Wr.render (wStackView (Spec.aggregate f p))),
   ("valid", fun ts =>
     match Rd.run Rd.profile ts with
     | none => "bad-op"
